@@ -65,6 +65,27 @@ CLAIMS = {
         "Trusted: rustc / driver / engine; BTreeMap::range and HashSet semantics; the hour constant 3_600_000_000_000 as reference.",
         "static analysis: MIR comparison-edge dominance + value provenance; HIR symbolic evaluation with exhaustive ordering abstraction; constant agreement",
         "DESIGN.md §3 C07"),
+    "C03": (
+        "Decides the ordering skeleton of a compaction and the swap's preconditions: R1 merge_chunks returns a path only after that same path was uploaded and "
+        "registered with metadata computed from the written batch, and the swap's target / sources are the merge's result / input; R2 sources are scheduled for "
+        "deletion and the lease is completed only on the success edge of the swap (wrapper-aware), no delete_chunk in the compaction path; R3 both backends "
+        "commit the swap only with the target known and every source still present; R4 level = max(source levels)+1; R5 a failed read_chunk aborts the merge "
+        "and every given path is read; R6 merge only under an acquired lease on the same group; R7 atomic publish (KNOWN FINDING: the target is registered in a "
+        "separate catalog update before the swap). Not decided: multiset equality of concat/sort/take, arbitrary crash sequences.",
+        "Trusted: rustc / driver / engine; arrow concat/sort kernels; the object-store CAS discipline decided under C02.",
+        "static analysis: MIR edge dominance with interprocedural must-wrappers, value provenance, who-may-call",
+        "DESIGN.md §3 C03"),
+    "C09": (
+        "R1 every object-store delete in the library sits in the garbage collector or a reviewed deleter (who-may-call); R2 each path GC deletes comes from "
+        "pending_deletions through a filter closure implying scheduled_at <= now - config.gc_grace_period and through one rejecting is_pinned(path), entries "
+        "leave the list only after the delete attempt; R3 pin test and delete in one critical section (KNOWN FINDING: they are not); R4 retention reaches "
+        "delete_chunk only through a filter implying max_timestamp < cut-off, schedules only after the catalog delete succeeded, days->ns constant exact; R5 "
+        "cut-off = now - retention - max_skew (linear form extracted from HIR); R6 pending deletions loaded before the first cycle and persisted in every "
+        "cycle after GC and retention, compaction schedules only after a successful swap; R7 the query's PinGuard is live across execution (guard-span "
+        "must-analysis). Not decided: elapsed-time arithmetic at run time, cross-process pins.",
+        "Trusted: rustc / driver / engine; chrono arithmetic; parking_lot / std RwLock semantics; the reviewed DELETERS table in rules/C09.py.",
+        "static analysis: call-graph who-may-call, iterator-chain provenance with closure predicate normalisation, guard-span liveness, linear-form extraction",
+        "DESIGN.md §3 C09"),
 }
 
 NOT_YET = "rule set under construction in this round; see DESIGN.md §3 for the planned static rules"
